@@ -25,6 +25,11 @@ func NewStore(cfg Config, m Media, syncer bool) (*Store, error) {
 	if err != nil {
 		return nil, err
 	}
+	if m.Dir.State == nil && FreshInit != nil {
+		// no state file: ReadPersistentState drew the hash initialisation from the crypto generator;
+		// substitute a reproducible draw so that recorded scripts replay
+		st.KeyLocationMapHashInitialization = FreshInit()
+	}
 	s.HashInit = st.KeyLocationMapHashInitialization
 	s.OldestEpoch = st.OldestEpochId
 	s.FreshState = m.Dir.State == nil
